@@ -114,12 +114,16 @@ def j_rules(P, E):
                 r.violate(("J3", mb.nid, "delivery under the map guard"),
                           "observers are called while the observer-map guard is held: a callback that subscribes/unsubscribes "
                           "deadlocks", body=mb, line=c.line)
-            # the iterated collection is the snapshot (result of fetch_observers), not the map
-            if c.path == "std::iter::Iterator::for_each":
-                ok = any(t[0] == "ret" and mb.call_at(t[1]) is not None and mb.call_at(t[1]).path == SUBJ + "::fetch_observers"
-                         for t in mb.operand_prov(c.args[0]))
-                if not ok:
-                    r.violate(("J3", mb.nid, "delivery not over the snapshot"), "delivery iterates something else than fetch_observers()", body=mb, line=c.line)
+            # the iterated collection must not be a view into the map itself (then the guard would
+            # have to be live): a snapshot built earlier is what is iterated
+            if c.path == "std::iter::Iterator::for_each" and c.args:
+                direct = False
+                for t in mb.operand_prov(c.args[0]):
+                    # provenance through a lock acquisition of `observers` without a copy (clone/collect)
+                    if t[0] == "param" and "observers" in t[2] and "[]" in t[2]:
+                        direct = True
+                if direct and not (held.get(c.bb, set()) & set(oa)):
+                    r.violate(("J3", mb.nid, "delivery over the live map"), "delivery iterates the map itself", body=mb, line=c.line)
         # J4: terminals clear before the first delivery
         if name in ("error", "complete"):
             clears = [c.bb for c in mb.calls if c.path == HM + "clear" and _hits(P, mb, mb.operand_prov(c.args[0]), "observers")]
